@@ -29,3 +29,37 @@ package outputstream
 //@     invariant 0 <= i && i < len(result.Messages) && msg.InterestingFor != nil && fresh(msg.InterestingFor) && allocated(msg.InterestingFor)
 //@     invariant forall k int :: 0 <= k && k < i ==> result.Messages[k].InterestingFor != nil && fresh(result.Messages[k].InterestingFor) && allocated(result.Messages[k].InterestingFor) && result.Messages[k].InterestingFor != msg.InterestingFor
 //@     invariant forall a int, b int :: 0 <= a && a < b && b < i ==> result.Messages[a].InterestingFor != result.Messages[b].InterestingFor
+
+// ---------------------------------------------------------------------------
+// C08 (safety part): the lookup functions never panic, whatever other
+// goroutines did to the stream between two lock acquisitions. Interference is
+// modelled by what the contracts leave open: every lookup in the database
+// (getUnlocked, iterators) may find or miss any batch; only the shape of what
+// is stored is fixed: every stored batch holds at least one message (Add
+// and reset never write an empty batch).
+//@ pred wfOS(os *OutputStream) = os != nil && os.db != nil && os.messagesCache != nil && os.newMessage != nil && (forall k uint64 :: k in os.messagesCache ==> os.messagesCache[k] != nil && len(os.messagesCache[k].Messages) >= 1)
+
+//@ func OutputStream.getUnlocked
+//@   requires wfOS(os)
+//@   ensures found: result1 ==> result0 != nil && len(result0.Messages) >= 1
+//@   ensures missing: !result1 ==> result0 == nil
+//@   ensures wf: wfOS(os)
+//@   assume@after DB.Get#0 : no-io-error: callres1 == nil || callres1 == leveldb.ErrNotFound
+//@   assume@after unmarshalMessageBatch#0 : stored-by-add: len(callres.Messages) >= 1
+//@   modifies maptype(map[uint64]*messageBatch)
+//@   loop range os.messagesCache
+//@     invariant wfOS(os) && mb != nil && len(mb.Messages) >= 1
+
+//@ func OutputStream.Get
+//@   requires wfOS(os)
+//@   ensures wf: wfOS(os)
+//@   modifies maptype(map[uint64]*messageBatch)
+
+//@ func OutputStream.GetNext
+//@   requires wfOS(os) && ctx != nil
+//@   assume@after unmarshalMessageBatch#0 : stored-by-add: len(callres.Messages) >= 1
+//@   assume@after unmarshalMessageBatch#1 : stored-by-add: len(callres.Messages) >= 1
+//@   assume@after iterator.Iterator.Last#0 : never-empty: callres
+//@   modifies *
+//@   loop for
+//@     invariant wfOS(os) && ctx != nil && current != nil && len(current.Messages) >= 1
